@@ -31,7 +31,7 @@ type c11Rec struct {
 	date            ref.Date
 	dashes          bool
 	indent, eol     string
-	kind            int // 0 headline only, 1 durations only, 2 ranges, 3 ranges + open range
+	kind            int // 0 headline only, 1 durations only, 2 ranges, 3 ranges + open range, 4 open range followed by a range
 	h12, dashSpaces bool
 	extraQ          int
 	summary         bool
@@ -51,7 +51,7 @@ func c11Doc(r *core.Rand, today ref.Date) (string, []c11Rec) {
 	for i := 0; i < n; i++ {
 		day += r.PickInt(1, 1, 1, 2)
 		recs = append(recs, c11Rec{date: ref.DateFromDays(day), dashes: r.Chance(2, 3), indent: r.Pick("    ", "  ", "   ", "\t"), eol: r.Pick("\n", "\n", "\r\n"),
-			kind: r.PickInt(0, 1, 2, 2, 3, 3), h12: r.Chance(1, 3), dashSpaces: r.Chance(2, 3), extraQ: r.PickInt(0, 0, 2, 4), summary: r.Chance(1, 3)})
+			kind: r.PickInt(0, 1, 2, 2, 3, 3, 4), h12: r.Chance(1, 3), dashSpaces: r.Chance(2, 3), extraQ: r.PickInt(0, 0, 2, 4), summary: r.Chance(1, 3)})
 	}
 	if tail > 0 {
 		// the tail continues the style of the last regular record where it exhibits one (so ties stay rare and the
@@ -98,6 +98,8 @@ func c11Doc(r *core.Rand, today ref.Date) (string, []c11Rec) {
 			sb.WriteString(rc.indent + "1h30m work" + rc.eol + rc.indent + "-15m" + rc.eol + cont)
 		case 2:
 			sb.WriteString(rc.indent + tm(480) + sp + "-" + sp + tm(540) + " morning" + rc.eol + rc.indent + "2h" + rc.eol + cont)
+		case 4:
+			sb.WriteString(rc.indent + tm(600) + sp + "-" + sp + strings.Repeat("?", 1+rc.extraQ) + " ongoing #x" + rc.eol + rc.indent + tm(720) + sp + "-" + sp + tm(750) + " lunch" + rc.eol + cont)
 		case 3:
 			sb.WriteString(rc.indent + tm(420) + sp + "-" + sp + tm(480) + rc.eol + rc.indent + tm(600) + sp + "-" + sp + strings.Repeat("?", 1+rc.extraQ) + " ongoing #x" + rc.eol + cont)
 		}
